@@ -42,16 +42,23 @@ HELPER_RANKS = []
 
 
 class _Uuid(object):
-    """Deterministic replacement of the uuid module for pDESy.model.*"""
+    """Deterministic replacement of the uuid module for pDESy.model.*: a counter, or (C09 'ids' twin) seeded
+    random hex strings whose lexicographic order is unrelated to creation order, as real uuid4 values are."""
 
     def __init__(self):
         self.n = 0
+        self.rng = None
 
-    def reset(self):
+    def reset(self, random_seed=None):
+        import random as _random
+
         self.n = 0
+        self.rng = _random.Random(random_seed) if random_seed is not None else None
 
     def uuid4(self):
         self.n += 1
+        if self.rng is not None:
+            return "%032x" % self.rng.getrandbits(128)
         return "uuid-%06d" % self.n
 
 
